@@ -112,7 +112,7 @@ impl Ep {
     }
     pub fn poll_at(&mut self, now: i64) -> i64 {
         match self.iface.poll_at(Instant::from_millis(now), &self.sockets) {
-            Some(t) => (t.total_micros() + 999).div_euclid(1000),
+            Some(t) => crate::util::ms_ceil(t),
             None => -1,
         }
     }
